@@ -128,6 +128,8 @@ func (b *Box) getOrCreateMessagesByTopic(topic []byte) *storedMessages {
 		return messages
 	}
 
+	verifYield("getOrCreate:between-lookups")
+
 	b.lock.Lock()
 	defer b.lock.Unlock()
 
@@ -144,9 +146,12 @@ func (b *Box) storeOrForward(msg *IncMessage) {
 	b.initialize()
 
 	if b.hasStartedSending(msg.Topic) {
+		verifYield("storeOrForward:before-forward")
 		b.MessageHandler.HandleMessage(msg)
 		return
 	}
+
+	verifYield("storeOrForward:after-started-check")
 
 	var tooManyTopicsFromSender bool
 
@@ -161,10 +166,19 @@ func (b *Box) storeOrForward(msg *IncMessage) {
 		return
 	}
 
+	verifYield("storeOrForward:before-mark")
+
 	b.markTopicForSender(msg)
 
+	verifYield("storeOrForward:after-mark")
+
 	messages := b.getOrCreateMessagesByTopic(msg.Topic)
+
+	verifYield("storeOrForward:before-add")
+
 	messages.add(msg)
+
+	verifYield("storeOrForward:after-add")
 }
 
 func (b *Box) markTopicForSender(msg *IncMessage) {
@@ -262,6 +276,8 @@ func (b *Box) Send(msgType uint8, topic []byte, msg []byte, to ...UniversalID) {
 
 	defer b.maybeGC()
 
+	verifYield("Send:before-lock")
+
 	b.lock.Lock()
 	b.startedSending[string(topic)] = atomic.LoadUint64(&b.currentGCEpochNum)
 	msgs := b.pendingMessages[string(topic)]
@@ -274,6 +290,7 @@ func (b *Box) Send(msgType uint8, topic []byte, msg []byte, to ...UniversalID) {
 
 	defer func() {
 		for _, msg := range messages {
+			verifYield("Send:before-drain-item")
 			b.HandleMessage(msg)
 		}
 	}()
@@ -281,6 +298,8 @@ func (b *Box) Send(msgType uint8, topic []byte, msg []byte, to ...UniversalID) {
 	delete(b.pendingMessages, string(topic))
 
 	b.lock.Unlock()
+
+	verifYield("Send:after-unlock")
 
 	b.ForwardSend(msgType, topic, msg, to...)
 }
